@@ -181,7 +181,8 @@ MODEL_FIELDS = ["body_mass", "body_inertia", "body_pos", "body_quat", "body_ipos
                 "qpos0", "qpos_spring", "geom_type", "geom_size", "geom_pos", "geom_quat", "geom_bodyid", "geom_condim",
                 "geom_friction", "geom_solref", "geom_solimp", "geom_margin", "geom_gap", "actuator_gainprm", "actuator_biasprm",
                 "actuator_gear", "actuator_trnid", "site_pos", "site_bodyid", "tendon_stiffness", "tendon_damping", "tendon_lengthspring",
-                "jnt_solref", "jnt_solimp", "dof_solref", "dof_solimp", "eq_solref", "eq_solimp", "eq_data"]
+                "jnt_solref", "jnt_solimp", "dof_solref", "dof_solimp", "eq_solref", "eq_solimp", "eq_data",
+                "sensor_type", "sensor_objtype", "sensor_objid", "sensor_reftype", "sensor_refid", "sensor_adr", "sensor_dim"]
 
 
 def job_pipeline(j):
@@ -204,7 +205,7 @@ def job_pipeline(j):
                         ctrl=jp.asarray(np.array(s["ctrl"], F64)))
         f = fj(mx, d)
         n = sj(mx, d)
-        r = {k: lst(getattr(f, k)) for k in ("xpos", "xquat", "xipos", "qfrc_bias", "qfrc_passive", "qfrc_actuator", "qacc", "qacc_smooth", "qfrc_constraint", "ten_length")}
+        r = {k: lst(getattr(f, k)) for k in ("xpos", "xquat", "xipos", "qfrc_bias", "qfrc_passive", "qfrc_actuator", "qacc", "qacc_smooth", "qfrc_constraint", "ten_length", "sensordata")}
         r["qM"] = lst(support.full_m(mx, f))
         c = f._impl.contact
         r["contact"] = {"dist": lst(c.dist), "pos": np.asarray(c.pos, F64).tolist(), "frame": np.asarray(c.frame, F64).reshape(-1, 9).tolist(),
